@@ -47,7 +47,9 @@ func judge(sc clientx.Sc, run clientx.Run, c Case, res *ev.Result) {
 	for _, e := range run.Log {
 		if e.Op == "read" && e.N > 0 {
 			cum += e.N
-			if cum >= sc.Expected && cum < trueLen {
+			// a boundary the TRANSPORT chose (it delivered less than the client's buffer could take); a boundary that exists
+			// only because the client offered a small buffer is the client's doing and no part of the known finding
+			if cum >= sc.Expected && cum < trueLen && (e.BufSz == 0 || e.N < e.BufSz) {
 				cutInGap = true
 			}
 		}
